@@ -1,7 +1,8 @@
 (* Correspondence for C19: run the model of the regressors' predict / stored attributes and of
    CP_PLSR.transform / predict on the same inputs as the implementation.
    Integer-valued cases are compared bit for bit (Z); fitted (float64) attributes are read as exact
-   rationals, the model is evaluated in Q (reduced after every operation) and compared with tolerance. *)
+   rationals, the regressors' model is evaluated in Q (reduced after every operation), the CP_PLSR model in
+   binary fixed point with 70 fractional bits (Zfx below), and compared with tolerance. *)
 From Coq Require Import List Arith ZArith QArith Bool.
 From TLV Require Import Base.Shape Base.PyList Base.Tensor Base.Ops Model.Base Model.Regress Corr.Common.
 Import ListNotations.
@@ -21,13 +22,46 @@ Inductive kase :=
 | KPlsrTransform (xmean : tensor Q) (loads : list (list (tensor Q))) (X expected : tensor Q)
 | KPlsrPredict (xmean ymean : tensor Q) (loads : list (list (tensor Q))) (coef yload X expected : tensor Q)
 (* T.mean(X, axis=0) and the centring *)
-| KMean (X expected : tensor Q).
+| KMean (X expected : tensor Q)
+(* the whole of CP_PLSR.fit with a fixed number of passes (tol = 0: never stops early; tol huge: stops after the
+   second pass): X, Y, n_iter_max, n_components, tol, the answers of initialize_cp (keyed by its argument Z) and of
+   lstsq (one per component) -> per component: loading vectors, X scores, Y loading, Y scores *)
+| KPlsrFit (n_iter ncomp : nat) (tol : Q) (itape : list (tensor Q * list (tensor Q))) (btape : list (list Q))
+           (X Y : tensor Q) (e_loads : list (list (tensor Q))) (e_scores : list (list Q))
+           (e_yloads : list (tensor Q)) (e_yscores : list (list Q)).
 
 Definition atol : Q := Qmake 1 1000000000.
 Definition rtol : Q := Qmake 1 1000000000.
 Definition qres_close := res_eqb (qt_close atol rtol).
 Definition ok_close (r : res (tensor Q)) (e : tensor Q) : bool :=
   match r with Ok t => qt_close atol rtol t e | Err => false end.
+
+(* execution instance for the iterative part: binary fixed point, 70 fractional bits, carried by Z (no gcds, the
+   numbers stay small over many passes; the rounding is 12 orders of magnitude below the comparison tolerance) *)
+Definition fxb : Z := 70%Z.
+Definition Zfx : fops Z :=
+  mkF 0%Z (Z.shiftl 1 fxb) Z.add Z.sub (fun a b => Z.shiftr (a * b) fxb)
+      (fun a b => if Z.eqb b 0 then 0%Z else Z.div (Z.shiftl a fxb) b) Z.opp Z.leb.
+Definition zsqrt (x : Z) : Z := Z.sqrt (Z.shiftl x fxb).
+Definition to_fx (x : Q) : Z := Z.div (Z.shiftl (Qnum x) fxb) (Zpos (Qden x)).
+Definition fx_den : positive := Z.to_pos (Z.shiftl 1 fxb).
+Definition of_fx (z : Z) : Q := Qmake z fx_den.
+Definition t_to_fx (t : tensor Q) : tensor Z := mk (shape t) (map to_fx (data t)).
+Definition t_of_fx (t : tensor Z) : tensor Q := mk (shape t) (map of_fx (data t)).
+
+Definition ftol : Q := Qmake 1 100000000.
+Definition key_tol : Q := Qmake 1 1000000.
+(* initialize_cp answers: the entry recorded for (a tensor close to) Z *)
+Fixpoint init_of (tape : list (tensor Q * list (tensor Q))) (Z : tensor Q) : list (tensor Q) :=
+  match tape with
+  | [] => []
+  | (k, a) :: rest => if qt_close key_tol key_tol k Z then a else init_of rest Z
+  end.
+(* lstsq answers: component c solves a (c+1)-column problem *)
+Definition solve_of {A} (tape : list (list Q)) (G : list (list A)) (b : list A) : list Q := nth (length b - 1) tape [].
+
+Fixpoint all2 {A B} (f : A -> B -> bool) (a : list A) (b : list B) : bool :=
+  match a, b with [], [] => true | x :: a', y :: b' => f x y && all2 f a' b' | _, _ => false end.
 
 Definition agree_k (k : kase) : bool :=
   match k with
@@ -43,9 +77,18 @@ Definition agree_k (k : kase) : bool :=
       qt_close atol rtol (weight_tensor_ st) W && ok_close (vec_W_ st) vecW
   | KRegCP w fs X e => qres_close (cp_regressor_predict Qops w fs X) e
   | KRegTK G fs X e => qres_close (tucker_regressor_predict Qops G fs X) e
-  | KPlsrTransform xm loads X e => qt_close atol rtol (transform Qops xm loads X) e
-  | KPlsrPredict xm ym loads coef yl X e => qt_close atol rtol (plsr_predict Qops xm ym loads coef yl X) e
-  | KMean X e => qt_close atol rtol (mean0 Qops X) e
+  | KPlsrTransform xm loads X e =>
+      qt_close atol rtol (t_of_fx (transform Zfx (t_to_fx xm) (map (map t_to_fx) loads) (t_to_fx X))) e
+  | KPlsrPredict xm ym loads coef yl X e =>
+      qt_close atol rtol (t_of_fx (plsr_predict Zfx (t_to_fx xm) (t_to_fx ym) (map (map t_to_fx) loads) (t_to_fx coef) (t_to_fx yl) (t_to_fx X))) e
+  | KMean X e => qt_close atol rtol (t_of_fx (mean0 Zfx (t_to_fx X))) e
+  | KPlsrFit n_iter ncomp tol itape btape X Y e_loads e_scores e_yloads e_yscores =>
+      let r := fit_cp Zfx zsqrt (fun Z => map t_to_fx (init_of itape (t_of_fx Z)))
+                      (fun G b => map to_fx (solve_of btape G b)) (to_fx tol) n_iter ncomp (t_to_fx X) (t_to_fx Y) in
+      all2 (all2 (fun a e => qt_close ftol ftol (t_of_fx a) e)) (loadings r) e_loads &&
+      all2 (fun a e => q_list_close ftol ftol (map of_fx a) e) (fitted_scores r) e_scores &&
+      all2 (fun a e => qt_close ftol ftol (t_of_fx a) e) (map (c_yload (F:=Z)) (comps r)) e_yloads &&
+      all2 (fun a e => q_list_close ftol ftol (map of_fx a) e) (map (c_yscore (F:=Z)) (comps r)) e_yscores
   end.
 
 Definition case := (nat * kase)%type.
